@@ -248,6 +248,16 @@ pub trait ExToString {
     fn to_string(&self) -> (r: String) ensures r@ == self.to_string_spec();
 }
 
+/// `String: ToString` copies the characters (ASSUMED; the impl is std's blanket `impl<T: Display> ToString for T`)
+pub mod ax_tostring {
+use super::*;
+#[verifier::external_body]
+pub broadcast proof fn axiom_string_to_string(s: String)
+    ensures #[trigger] s.to_string_spec() == s@,
+{}
+}
+pub use ax_tostring::*;
+
 // ---- conversions used by src/value/convert.rs --------------------------------------------------------------
 /// `std::num::TryFromIntError` is a unit-like struct: it has exactly one value
 pub uninterp spec fn the_try_from_int_error() -> core::num::TryFromIntError;
